@@ -550,7 +550,7 @@ _LENFN = {}
 def _is_len_value(body, o, depth=0, seen=None):
     """The operand is an in-memory length: a constant, byte_len()/len()/..., a sum of such, a value that is one of
     those on every branch that defines it, or the result of a crate function all of whose returns are such."""
-    if depth > 10:
+    if depth > 60:
         return False
     if body.fold(o) is not None:
         return True
